@@ -6,6 +6,7 @@ MENUS = {
         ('memo', ['tA', 'tB', 'tAB', 'ka', 'kab', 'm_ka_b', 'm_b_ka', 'd_kab_b', 'p_ka_2', 'tA2'], 8),
         ('order', ['tA', 'tA2', 'ka', 'ka2', 'aa', 'm_ka_ka', 'm_a_ha', 'ha', 'd_a2_ka', 'p_ka_2'], 8),
         ('cancel', ['tA', 'tB', 'tBi', 'tApB', 'ka', 'm_b_bi', 'd_ka_b', 'm_apb_b', 'd_ka_ha', 'ha', 'd_ka_ka'], 7),
+        ('noref', ['tA', 'tM', 'tMpA', 'p', 'q', 'ppa', 'qpa', 'm_ppa_a', 'm_qpa_a', 'm_a_qpa', 'd_ppa_qpa'], 9),
     ],
     'thorough': [
         ('memo', ['tA', 'tB', 'tAB', 'ka', 'cb', 'kab', 'kacb', 'm_ka_b', 'm_b_ka', 'm_ka_cb', 'd_kab_b', 'p_ka_2', 'tA2'], 8),
